@@ -25,7 +25,7 @@ STEPS = ["T", "H", "I", "S"]       # transition to the sibling, handled by the p
 
 
 def bounds(tier):
-  d = dict(LIM[tier]); d["meaning"] = "S = steps after start_at, each T/H/I/S (S = self-transition); ring 1 = the full spy log holds 8 lines and the full trace 2 records (both wrap within the case); clock mode per phase 0 stands still/1 advances once/2 ticks every call; hosts HsmWithQueues, ActiveObject; live_spy x live_trace"
+  d = dict(LIM[tier]); d["meaning"] = "S = steps after start_at, each T/H/I/S (S = self-transition); ring 1 = the full spy log holds 8 lines and the full trace 2 records (both wrap within the case) and the queue capacity QUEUE_SIZE is 3 (fewer than the live lines of one step); clock mode per phase 0 stands still/1 advances once/2 ticks every call; hosts HsmWithQueues, ActiveObject; live_spy x live_trace"
   return d
 
 
@@ -87,7 +87,8 @@ def case(s1, s2, s3, m0, m1, m2, m3, hosti, live, ring=0):
     hsm.HsmEventProcessor.SPY_RING_BUFFER_SIZE = 8 if ring else 500
     saved_trc = hsm.HsmEventProcessor.TRC_RING_BUFFER_SIZE
     hsm.HsmEventProcessor.TRC_RING_BUFFER_SIZE = 2 if ring else 500      # ... and the full trace holds 2 records: it is full after the first step
-    c, spy_lines, trace_lines = hosts.make(host, ls, lt)
+    # ... and the queue capacity (HsmWithQueues.QUEUE_SIZE, 500 in production) is 3: one step writes more live lines than that
+    c, spy_lines, trace_lines = hosts.make(host, ls, lt, capacity=3 if ring else None)
     from miros.event import Event, signals, return_status
     T, H, I = Event(signal="T").signal, Event(signal="H").signal, Event(signal="I").signal
     SELF = Event(signal="S").signal
@@ -123,7 +124,7 @@ def case(s1, s2, s3, m0, m1, m2, m3, hosti, live, ring=0):
       chart.temp.fun = P
       return return_status.SUPER
 
-    what = "host=%s live_spy=%d live_trace=%d steps=%s clock=%s%s" % (hosts.HOSTS[host], ls, lt, [s1, s2, s3], [m0, m1, m2, m3], " spy-ring=8 trace-ring=2" if ring else "")
+    what = "host=%s live_spy=%d live_trace=%d steps=%s clock=%s%s" % (hosts.HOSTS[host], ls, lt, [s1, s2, s3], [m0, m1, m2, m3], " spy-ring=8 trace-ring=2 capacity=3" if ring else "")
     exp_trace, exp_spy = [], []
     seen = 0
     last_rec = None
